@@ -88,7 +88,7 @@ def ediagJson (d : EDiag) : Json := Json.arr #[(d.controller : Json), (d.entity 
 def linkFindings (ctrlRoute : String) (m : Method) : List (String × String) :=
   let route := ((m.annots.filter (·.name = "Route")).head?.map (·.value)).getD ""
   -- the controller's prefix first (`WithControllerRoute`, fix for the prefix half of C10-F2)
-  let urlParams := extractUrlParams ctrlRoute ++ extractUrlParams route
+  let urlParams := extractUrlParams (ctrlRoute ++ route)
   let pathAttrs := (m.annots.filter (·.name = "Path")).zipIdx
   let funcParams := (m.params.filter fun p => !isContextType p.type).map (·.name)
   -- 1. route
@@ -231,7 +231,7 @@ def wellLinked (env : TypeEnv) (ctrlRoute : String) (m : Method) : List String :
     `wellLinked` -/
 def c10FindingOf (ctrlRoute : String) (m : Method) (accepted : Bool) (wl : List String) : String :=
   let route := ((m.annots.filter (·.name = "Route")).head?.map (·.value)).getD ""
-  let urlParams := extractUrlParams ctrlRoute ++ extractUrlParams route
+  let urlParams := extractUrlParams (ctrlRoute ++ route)
   let paths := m.annots.filter (·.name = "Path")
   let unaliasedOutside := paths.any fun a => (match aliasOf a with | .none => true | .ok v => v.isEmpty | .bad => false) && !urlParams.contains a.value
   if accepted && !wl.isEmpty then
